@@ -1324,7 +1324,12 @@ def c10(ctx: Ctx) -> None:
                 info = n.meta.get('callee') or callee_info(gg, n.ast)
                 if info['kind'] == 'package' and r.dispatch in info.get('scopes', []):
                     disp_spawns.append((gg, n))
-    ok = len(asm_calls) == 1 and len(disp_spawns) == 1 and disp_spawns[0][0].scope is r.init and not disp_spawns[0][1].loops
+    # (several call sites inside the one dispatcher coroutine, each awaited where it stands, run one after the other - a loop
+    # rotated so that the next batch is taken at its bottom has two; what must not exist is a second *caller*)
+    asm_hosts = {gg.scope.qualname for gg, _ in asm_calls}
+    asm_awaited = all(isinstance(parent(n.ast), ast.Await) for _, n in asm_calls)
+    ok = bool(asm_calls) and asm_hosts == {r.dispatch.qualname} and asm_awaited \
+        and len(disp_spawns) == 1 and disp_spawns[0][0].scope is r.init and not disp_spawns[0][1].loops
     ctx.check('C10-R4', f'{len(asm_calls)} assembler call site(s); dispatcher started at {[gg.scope.qualname for gg, _ in disp_spawns]}',
               f'{FILE}:{r.dispatch.lineno}', ok, 'one assembler in one dispatcher started once by the constructor',
               'two assemblers would interleave their dequeues', construct=construct_key(r.cls.qualname, 'assemblers', len(asm_calls), len(disp_spawns)))
